@@ -29,6 +29,13 @@ def make_record(rng, sps, nslots, pattern):
         order = int(rng.choice([7, 9, 11]))
         with core.monitor_scope(), core.quiet():
             bits = D.PRBS(order, len=nslots, seed=int(rng.integers(1, 2 ** order))).data.astype(float)
+    elif pattern == "sparse":       # "both symbols present" is all the statement asks: mark ratios of 10 % and 90 % (long records, so that the rare symbol still has a couple of hundred slots)
+        p1 = float(rng.choice([0.1, 0.9, 0.15, 0.85]))
+        bits = (rng.random(nslots) < p1).astype(float)
+        rare = 1.0 if p1 < 0.5 else 0.0
+        need = 8 - int(np.sum(bits == rare))
+        if need > 0:
+            bits[rng.choice(np.flatnonzero(bits != rare), need, replace=False)] = rare
     else:
         bits = rng.integers(0, 2, nslots).astype(float)
         bits[:2] = [0, 1]
@@ -60,7 +67,9 @@ def w_eye(ctx, rng, i):
     with core.quiet():
         T.gv(sps=sps, R=R)
     nslots = int(rng.choice([64, 65, 127, 128, 255, 256, 511, 512]))     # odd slot counts (a whole PRBS period) exercise the truncation to an even number of slots
-    pattern = "prbs" if i % 2 else "random"
+    pattern = ["random", "prbs", "random", "prbs", "sparse"][i % 5]
+    if pattern == "sparse":
+        nslots = int(rng.choice([2048, 2047, 3001]))      # enough slots of the rare symbol (200+) for its sigma estimate: the short-record finite-sample effect (known finding) is not the subject here
     bits = make_record(rng, sps, nslots, pattern)
     swing = float(10 ** rng.uniform(-3, 2))
     if i % 7 == 0:
